@@ -109,7 +109,7 @@ class Expander:
         self.cache: Dict[Tuple[str, int], ast.AST] = {}
 
     # -- resolution ---------------------------------------------------------
-    def _resolve(self, call: ast.Call, cls: Optional[str], awaited: bool, stack: Tuple[str, ...]):
+    def _resolve(self, call: ast.Call, cls: Optional[str], awaited: bool, stack: Tuple[str, ...], generator: bool = False):
         f = call.func
         qual = None
         recv: Optional[ast.AST] = None
@@ -134,7 +134,10 @@ class Expander:
         if h.args.vararg or h.args.kwarg:
             return None
         inner = [n for n in ast.walk(h) if n is not h]
-        if any(isinstance(n, (ast.Yield, ast.YieldFrom, ast.Global, ast.Nonlocal, ast.FunctionDef, ast.AsyncFunctionDef, ast.ClassDef)) for n in inner):
+        if any(isinstance(n, (ast.Global, ast.Nonlocal, ast.FunctionDef, ast.AsyncFunctionDef, ast.ClassDef)) for n in inner):
+            return None
+        is_gen = any(isinstance(n, (ast.Yield, ast.YieldFrom)) for n in inner)
+        if is_gen != generator:
             return None
         if any(isinstance(a, ast.Starred) for a in call.args) or any(k.arg is None for k in call.keywords):
             return None
@@ -240,6 +243,144 @@ class Expander:
             ast.fix_missing_locations(st)
         return out
 
+    def _inline_generator(self, h: ast.AST, binding: Dict[str, ast.AST], caller_names: Set[str], loop: ast.For) -> Optional[List[ast.stmt]]:
+        """`for T in G(args): BODY` with G a generator that is not a known unit: G's body with `T = <yielded>; BODY` in
+        place of every `yield` and `for T in X: BODY` in place of `yield from X`.  Only when that is exactly behaviour
+        preserving: yields are plain statements outside try / with; BODY has no `break`; a `continue` in BODY is allowed
+        only when every yield is the last thing its enclosing generator loop does; the generator returns early only in
+        the form `if C: ...; return` at its top level (rewritten as if / else) or at its very end"""
+        body = list(h.body)
+        if body and isinstance(body[0], ast.Expr) and isinstance(body[0].value, ast.Constant) and isinstance(body[0].value.value, str):
+            body = body[1:]
+
+        def own(stmts):
+            """statements of these blocks, not descending into nested loops of the *consumer* body"""
+            for s_ in stmts:
+                yield s_
+                for fld in ("body", "orelse", "finalbody"):
+                    sub = getattr(s_, fld, None)
+                    if isinstance(sub, list) and sub and isinstance(sub[0], ast.stmt) and not isinstance(s_, (ast.For, ast.While, ast.AsyncFor, ast.FunctionDef, ast.AsyncFunctionDef)):
+                        yield from own(sub)
+                if isinstance(s_, ast.Try):
+                    for hd in s_.handlers:
+                        yield from own(hd.body)
+
+        consumer = list(own(loop.body))
+        if any(isinstance(x, ast.Break) for x in consumer):
+            return None
+        has_continue = any(isinstance(x, ast.Continue) for x in consumer)
+        # yields must be statements; none inside try / with
+        for n in ast.walk(h):
+            if isinstance(n, (ast.Yield, ast.YieldFrom)):
+                pass
+        stmts_with_yield = [n for n in ast.walk(h) if isinstance(n, ast.Expr) and isinstance(n.value, (ast.Yield, ast.YieldFrom))]
+        all_yields = [n for n in ast.walk(h) if isinstance(n, (ast.Yield, ast.YieldFrom))]
+        if len(stmts_with_yield) != len(all_yields) or not all_yields or len(all_yields) > 3:
+            return None
+        for n in ast.walk(h):
+            if isinstance(n, (ast.Try, ast.With, ast.AsyncWith)) and any(isinstance(x, (ast.Yield, ast.YieldFrom)) for x in ast.walk(n)):
+                return None
+        if any(isinstance(y.value, ast.Yield) and y.value.value is None for y in stmts_with_yield):
+            return None
+
+        # early returns of the generator: `if C: ...; return` at top level -> if / else; trailing return dropped
+        def strip_returns(stmts: List[ast.stmt]) -> Optional[List[ast.stmt]]:
+            out: List[ast.stmt] = []
+            for i, s_ in enumerate(stmts):
+                if isinstance(s_, ast.Return):
+                    if s_.value is not None:
+                        return None
+                    return out           # everything after a top-level return is dead
+                if isinstance(s_, ast.If) and s_.body and isinstance(s_.body[-1], ast.Return) and s_.body[-1].value is None and not s_.orelse \
+                        and not any(isinstance(x, ast.Return) for b in s_.body[:-1] for x in ast.walk(b)):
+                    rest = strip_returns(stmts[i + 1:])
+                    if rest is None:
+                        return None
+                    new_if = ast.copy_location(ast.If(s_.test, list(s_.body[:-1]) or [ast.copy_location(ast.Pass(), s_)], rest), s_)
+                    out.append(new_if)
+                    return out
+                if any(isinstance(x, ast.Return) for x in ast.walk(s_)):
+                    return None
+                out.append(s_)
+            return out
+
+        body2 = strip_returns(body)
+        if body2 is None:
+            return None
+
+        # position of every yield: last statement of its innermost generator loop (or of if-branches in that position)?
+        def tail_ok(stmts: List[ast.stmt], in_loop: bool) -> bool:
+            for i, s_ in enumerate(stmts):
+                last = i == len(stmts) - 1
+                if isinstance(s_, ast.Expr) and isinstance(s_.value, (ast.Yield, ast.YieldFrom)):
+                    if isinstance(s_.value, ast.Yield) and not (in_loop and last):
+                        return False
+                    if isinstance(s_.value, ast.YieldFrom) and False:
+                        return False
+                elif isinstance(s_, (ast.For, ast.While)):
+                    if not tail_ok(s_.body, True):
+                        return False
+                elif isinstance(s_, ast.If):
+                    if not tail_ok(s_.body, in_loop and last) or not tail_ok(s_.orelse, in_loop and last):
+                        return False
+            return True
+
+        if has_continue and not tail_ok(body2, False):
+            return None
+
+        assigned = _assigned_names(h)
+        subst: Dict[str, ast.AST] = {}
+        prologue: List[ast.stmt] = []
+        renames: Dict[str, str] = {}
+        target_names = {x.id for x in ast.walk(loop.target) if isinstance(x, ast.Name)}
+        for p_, a in binding.items():
+            if isinstance(a, ast.Name) and a.id == p_ and p_ not in assigned:
+                continue
+            if _simple(a) and p_ not in assigned and not (isinstance(a, ast.Name) and a.id in assigned):
+                subst[p_] = a
+            else:
+                new = p_
+                if p_ in caller_names:
+                    new = f"{p_}__{h.name.strip('_')}"
+                    renames[p_] = new
+                prologue.append(ast.copy_location(ast.Assign([ast.Name(new, ast.Store())], copy.deepcopy(a)), loop))
+        for name in assigned:
+            if name in caller_names and name not in binding and name not in renames and name not in target_names:
+                renames[name] = f"{name}__{h.name.strip('_')}"
+        sub = _Subst(subst, renames)
+
+        def rewrite(stmts: List[ast.stmt]) -> List[ast.stmt]:
+            out: List[ast.stmt] = []
+            for s_ in stmts:
+                if isinstance(s_, ast.Expr) and isinstance(s_.value, ast.Yield):
+                    val = sub.visit(copy.deepcopy(s_.value.value))
+                    out.append(ast.copy_location(ast.Assign([copy.deepcopy(loop.target)], val), s_))
+                    out.extend(copy.deepcopy(loop.body))
+                elif isinstance(s_, ast.Expr) and isinstance(s_.value, ast.YieldFrom):
+                    it = sub.visit(copy.deepcopy(s_.value.value))
+                    out.append(ast.copy_location(ast.For(copy.deepcopy(loop.target), it, copy.deepcopy(loop.body), []), s_))
+                else:
+                    s2 = copy.copy(s_)
+                    for fld in ("body", "orelse", "finalbody"):
+                        subl = getattr(s_, fld, None)
+                        if isinstance(subl, list) and subl and isinstance(subl[0], ast.stmt):
+                            setattr(s2, fld, rewrite(subl))
+                    # expressions of this statement (not its blocks) get the parameter substitution
+                    for fld, val in ast.iter_fields(s2):
+                        if fld in ("body", "orelse", "finalbody", "handlers"):
+                            continue
+                        if isinstance(val, ast.AST):
+                            setattr(s2, fld, sub.visit(copy.deepcopy(val)))
+                        elif isinstance(val, list) and val and isinstance(val[0], ast.AST) and not isinstance(val[0], ast.stmt):
+                            setattr(s2, fld, [sub.visit(copy.deepcopy(v)) for v in val])
+                    out.append(s2)
+            return out
+
+        out = prologue + rewrite(body2)
+        for s_ in out:
+            ast.fix_missing_locations(s_)
+        return out or None
+
     def _block(self, stmts: List[ast.stmt], cls: Optional[str], caller_names: Set[str], stack: Tuple[str, ...], changed: List[bool]) -> List[ast.stmt]:
         out: List[ast.stmt] = []
         for st in stmts:
@@ -262,6 +403,10 @@ class Expander:
                     r = self._resolve(call, cls, aw, stack)
                     if r:
                         rep = self._inline(r[1], r[2], caller_names, "expr", None, st, False)
+            if rep is None and isinstance(st, ast.For) and not st.orelse and isinstance(st.iter, ast.Call):
+                r = self._resolve(st.iter, cls, False, stack, generator=True)
+                if r:
+                    rep = self._inline_generator(r[1], r[2], caller_names, st)
             if rep is None:
                 rep = _dict_update_as_stores(st)
             if rep is not None:
